@@ -110,8 +110,8 @@ Proof. exact leaf_means_by_name. Qed.
 Print Assumptions c18_leaf_means_read_by_name.
 
 (* ... and for EVERY row order rp and column order cp of a well-formed file (sf_wf: what the writers produce),
-   the rearranged file -- rows, cluster_to_row, columns and col_names moved together -- reads the same by name,
-   is accepted iff... (here: whenever) the original is, and gives the same leaf means by name *)
+   the rearranged file -- rows, cluster_to_row, columns and col_names moved together -- reads the same by name
+   (this theorem), is accepted whenever the original is, and gives the same leaf means by name (the next one) *)
 Theorem c18_statistics_file_by_name : forall rp cp sf,
   sf_wf sf -> NoDup (sf_cols sf) ->
   Permutation rp (seq 0 (length (sf_n sf))) -> Permutation cp (seq 0 (length (sf_cols sf))) ->
